@@ -104,6 +104,8 @@ type vRegSpec struct {
 	Covert  string
 	Client  net.IP // registrant address (4 bytes)
 	Gen     uint32
+	// ask the station to send a PROXY-protocol header to the covert
+	ProxyHeader bool
 }
 
 func (sp vRegSpec) String() string {
@@ -123,6 +125,9 @@ func (s *vStation) vBuild(sp vRegSpec) (*cj.DecoyRegistration, error) {
 		DecoyListGeneration: proto.Uint32(gen),
 		V4Support:           proto.Bool(true),
 		V6Support:           proto.Bool(false),
+	}
+	if sp.ProxyHeader {
+		c2s.Flags = &pb.RegistrationFlags{ProxyHeader: proto.Bool(true)}
 	}
 	if sp.Params != nil {
 		a, err := anypb.New(sp.Params)
